@@ -175,15 +175,17 @@ const (
 
 // World is one bucket shared by the instances of a scenario.
 type World struct {
-	sc      *Scenario
-	tr      *Trace
-	mu      sync.Mutex // guards store, watchers, counters
-	store   *refstore.Store
-	ops     int64
-	insts   []*Inst
-	ws      []*simWatcher
-	ended   bool
-	snapReq chan struct{}
+	sc       *Scenario
+	trigMu   sync.Mutex
+	triggers []*trigger
+	tr       *Trace
+	mu       sync.Mutex // guards store, watchers, counters
+	store    *refstore.Store
+	ops      int64
+	insts    []*Inst
+	ws       []*simWatcher
+	ended    bool
+	snapReq  chan struct{}
 }
 
 type entry struct {
